@@ -41,6 +41,8 @@ func main() {
 	switch os.Args[1] {
 	case "astfuzz":
 		os.Exit(cmdASTFuzz(os.Args[2:]))
+	case "mutsweep":
+		os.Exit(cmdMutSweep(os.Args[2:]))
 	case "symtab":
 		os.Exit(cmdSymtab(os.Args[2:]))
 	case "check":
